@@ -282,7 +282,7 @@ func Explore(cfg Config, body func(*Ctx)) (res *Result) {
 		cfg.Samples = 6
 	}
 	if cfg.MaxShrink == 0 {
-		cfg.MaxShrink = 20000
+		cfg.MaxShrink = 300000
 	}
 	defer func() {
 		if r := recover(); r != nil {
@@ -479,12 +479,27 @@ func simpler(a, b *Ctx) bool {
 	if da != db {
 		return da < db
 	}
-	for i := 0; i < len(a.choices) && i < len(b.choices); i++ {
+	nz := func(c *Ctx) int {
+		n := 0
+		for _, x := range c.choices {
+			if x != 0 {
+				n++
+			}
+		}
+		return n
+	}
+	if na, nb := nz(a), nz(b); na != nb {
+		return na < nb
+	}
+	if len(a.choices) != len(b.choices) {
+		return len(a.choices) < len(b.choices)
+	}
+	for i := range a.choices {
 		if a.choices[i] != b.choices[i] {
 			return a.choices[i] < b.choices[i]
 		}
 	}
-	return len(a.choices) < len(b.choices)
+	return false
 }
 
 func labelsOf(c *Ctx) []string {
@@ -530,8 +545,43 @@ func (s *shrinker) shrink(labels []string, v []int, f *Failure) ([]string, []int
 				}
 			}
 		}
+		if nc := s.deletePass(cur, f); nc != nil {
+			cur = nc
+			improved = true
+		}
 	}
 	return labelsOf(cur), cur.choices, cur.fail, cur.caseString()
+}
+
+// deletePass tries to drop one recorded choice (so that later points with the
+// same label move up one occurrence): removes a call from a call sequence, a
+// value from a value list, … Returns the improved run or nil.
+func (s *shrinker) deletePass(cur *Ctx, f *Failure) *Ctx {
+	ls := labelsOf(cur)
+	count := map[string]int{}
+	for _, l := range ls {
+		count[l]++
+	}
+	for i := len(ls) - 1; i >= 0; i-- {
+		if count[ls[i]] < 2 {
+			continue
+		}
+		nl := append(append([]string{}, ls[:i]...), ls[i+1:]...)
+		nv := append(append([]int{}, cur.choices[:i]...), cur.choices[i+1:]...)
+		k := "del:" + vecKey(nl, nv)
+		if mf, seen := s.memo[k]; seen && !sameFailure(mf, f) {
+			continue
+		}
+		nc, ok := s.try(nl, nv)
+		if !ok {
+			continue
+		}
+		s.memo[k] = nc.fail
+		if sameFailure(nc.fail, f) && simpler(nc, cur) {
+			return nc
+		}
+	}
+	return nil
 }
 
 // Replay runs one choice vector (strictly) and returns failure and case.
@@ -552,4 +602,10 @@ func SortedKeys(m map[uint64]struct{}) []uint64 {
 	}
 	sort.Slice(out, func(i, j int) bool { return out[i] < out[j] })
 	return out
+}
+
+// Shrink exposes the shrinker (used by tests and by `vp replay --shrink`).
+func Shrink(body func(*Ctx), labels []string, choices []int, f *Failure, tier string) ([]string, []int, *Failure, string) {
+	s := &shrinker{body: body, memo: map[string]*Failure{}, tier: tier}
+	return s.shrink(labels, choices, f)
 }
